@@ -778,6 +778,7 @@ func rulePoolKeys(c *Ctx) {
 				pos   token.Pos
 			}
 			var lits []lit
+			defs := singleDefs(info, fd.Body)
 			ast.Inspect(fd.Body, func(n ast.Node) bool {
 				cl, ok := n.(*ast.CompositeLit)
 				if !ok {
@@ -789,7 +790,12 @@ func rulePoolKeys(c *Ctx) {
 				for _, el := range cl.Elts {
 					if kv, ok := el.(*ast.KeyValueExpr); ok {
 						if k, ok := kv.Key.(*ast.Ident); ok && k.Name == "Epoch" {
-							lits = append(lits, lit{types.ExprString(kv.Value), cl.Pos()})
+							// read through single-definition locals: `targetEpoch := att.Data.Target.Epoch` names the same value
+							txt := types.ExprString(kv.Value)
+							if rp, ok := exprPoly(info, kv.Value, defs, nil, 0); ok {
+								txt = rp.String()
+							}
+							lits = append(lits, lit{txt, cl.Pos()})
 						}
 					}
 				}
